@@ -25,6 +25,9 @@ Oracles (each with its own key):
                  earlier composites) and uses (pass_spatial_data, estimate_hyperpar_bounds, evaluations) every live object keeps
                  exactly the n_params / labels / bounds / value / gradients of a freshly built object of its own expression
                  (history/<family of the changed object>/<attribute>/exposed-by:<operation kind>)
+                 (evaluator redata) the same with pass_spatial_data called AGAIN on every live object with different data of the same shape, of
+                 another shape, and back to the first data, in every pair of positions of the history: every object must equal a fresh
+                 object given the CURRENT data (history/<family>/<attribute>/exposed-by:new-data-same-shape | new-data-other-shape | back-to-first-data)
   extreme/..     extreme-but-legal regimes (change-point widths 1e-6..1e2 data ranges, locations at / beyond the data edges, length-scales
                  1e-3..1e3 ranges, amplitudes exp(+-10), points >= 1e3 widths from the change-point): results finite, values and gradients
                  equal the documented formula in mpmath entry by entry (extreme/<family>/<what>/non-finite, ../builder-vs-formula-offdiag,
@@ -948,7 +951,11 @@ def ev_extreme(case):
 # gradients, labels, bounds and number of parameters of a composite are those of ITS components – so at any later time
 # they must be what a freshly built object of the same expression (new leaves, built in one go, nothing else alive)
 # gives, whatever has been built from, or done to, other objects in between.
-HIST_KINDS = ("add", "cp", "comp", "pass", "bounds", "eval")
+#   ["data", k, rev] EVERY live object is given data set k by pass_spatial_data (k = 0: the first data x; 1: different points, same
+#                   shape; 2: one point more), in order of creation or composites first (rev); later "pass" / "bounds" use set k
+HIST_KINDS = ("add", "cp", "comp", "pass", "bounds", "eval", "data")
+DATA_NAMES = ["x (the first data)", "x' (different points, same shape)", "x'' (one more point)"]
+DATA_KINDS = ["back-to-first-data", "new-data-same-shape", "new-data-other-shape"]
 
 
 def hist_init(leaves):
@@ -969,12 +976,31 @@ def hist_apply_sym(pool, op):
             pool[l]["passed"] = True
     elif kd == "bounds":
         e = pool[op[1]]
+        if hist_bounds_stale(pool, op[1]):
+            return  # not executed (see hist_bounds_stale)
         e["b"] = "direct"
         for f in pool:  # entries sharing a leaf may or may not have had bounds stored on them: not compared
             if f is not e and f["b"] == "none" and (f["leaves"] & e["leaves"]):
                 f["b"] = "indirect"
+    elif kd == "data":
+        # every live object is given data set op[1]: all are data-passed; bounds stored under earlier data are kept by the
+        # library as if the user had given them (documented: bounds are only estimated when none are set) -> not compared
+        for e in pool:
+            e["passed"] = True
+            if e["b"] != "none":
+                e["b"] = "stale"
     elif kd != "eval":
         raise HarnessError(f"unknown history operation {op}")
+
+
+def hist_bounds_stale(pool, i):
+    """estimate_hyperpar_bounds on a composite that shares a leaf with an object still holding bounds from EARLIER data is not
+    executed: a composite keeps the bounds already stored on its components, so what it should report is not defined by the
+    property (a leaf kernel re-estimates from scratch and is always executed)"""
+    e = pool[i]
+    if len(e["leaves"]) == 1 and isinstance(e["spec"], str):
+        return False
+    return any(f["b"] == "stale" and (f["leaves"] & e["leaves"]) for f in pool)
 
 
 def hist_next_ops(pool, builders, observe):
@@ -995,6 +1021,8 @@ def hist_text(op):
         return f"k{{new}} = ChangePoint([k{op[1]}, k{op[2]}])"
     if kd == "comp":
         return f"k{{new}} = CompositeCovariance([k{op[1]}, k{op[2]}])"
+    if kd == "data":
+        return "for every live k (%s): k.pass_spatial_data(%s)" % ("composites first" if len(op) > 2 and op[2] else "in order of creation", DATA_NAMES[op[1]])
     return {"pass": "k%d.pass_spatial_data(x)", "bounds": "k%d.estimate_hyperpar_bounds(y)", "eval": "evaluate k%d"}[kd] % op[1]
 
 
@@ -1023,11 +1051,12 @@ def _same_bounds(a, b):
 _HREF = {}  # reference (harness-only, pure) values per (expression, data, pattern); shared by the cases a worker runs
 
 
-def hist_reference(key, spec, n, d, design, seed, pat):
-    k = (key, n, d, design, seed, pat)
+def hist_reference(key, spec, n, d, design, seed, pat, X=None, ds=0):
+    k = (key, n, d, design, seed, pat, ds)
     r = _HREF.get(k)
     if r is None:
-        X = R.design(design, n, d, seed)
+        if X is None:
+            X = R.design(design, n, d, seed)
         theta = R.theta_for(spec, X, pat)
         Dk, Dn = amp_sum(spec, theta, n, d)
         r = (theta, R.data_cov_float(spec, theta, X), R.cross_cov_float(spec, theta, X, X, n), 64 * EPS * R.condition_factor(spec, theta, X) * (Dk + Dn))
@@ -1046,24 +1075,36 @@ class _Hist:
 
     def __init__(self, case):
         self.case = case
-        self.n, self.d = case["n"], case["d"]
-        self.X = R.design(case["design"], self.n, self.d, case["seed"])
-        self.y = R.y_values(self.X)
+        self.d = case["d"]
+        n0, d, des, sd = case["n"], case["d"], case["design"], case["seed"]
+        # data sets: 0 = the data of the history; 1 = different points of the same shape; 2 = one point more
+        X0 = R.design(des, n0, d, sd)
+        X1 = R.design("permuted" if des == "regular" else "regular", n0, d, sd + 1) * 0.75 + 0.0625
+        X2 = R.design(des, n0 + 1, d, sd + 2)
+        self.sets = [(X, R.y_values(X)) for X in (X0, X1, X2)]
+        if n0 > 1 and np.allclose(np.abs(X0[:, None, :] - X0[None, :, :]), np.abs(X1[:, None, :] - X1[None, :, :])):
+            raise HarnessError("the second data set has the same pairwise separations as the first")
+        self.cur = 0
+        self.last_which = None
         self.patterns = (case["pattern"] % 9, (case["pattern"] + 4) % 9)
         self.fresh = {}
         self.slack = {}
         self.nev = 0
 
+    X = property(lambda self: self.sets[self.cur][0])
+    y = property(lambda self: self.sets[self.cur][1])
+    n = property(lambda self: self.sets[self.cur][0].shape[0])
+
     def get(self, ent):
         key = ent["key"]
-        f = self.fresh.get(key)
+        f = self.fresh.get((key, self.cur))
         if f is not None:
             return f
         spec, n, d, X, c = ent["spec"], self.n, self.d, self.X, self.case
         f = {"P": R.n_params(spec, n, d), "fam": R.family(spec), "name": R.spec_name(spec), "th": [], "ev": [], "packed": [], "oneshot": []}
         # one new object per hyper-parameter vector, and one for the bounds: a fresh object has no history at all
         for pat in self.patterns:
-            theta, Kref, Kpref, tol = hist_reference(key, spec, n, d, c["design"], c["seed"], pat)
+            theta, Kref, Kpref, tol = hist_reference(key, spec, n, d, c["design"], c["seed"], pat, X, self.cur)
             o = R.make_kernel(spec)
             with lib("fresh.pass_spatial_data"):
                 o.pass_spatial_data(X.copy())
@@ -1098,7 +1139,7 @@ class _Hist:
             o.estimate_hyperpar_bounds(self.y.copy())
         f["b_direct"] = _bounds_list(o.bounds)
         self.nev += 3
-        self.fresh[key] = f
+        self.fresh[(key, self.cur)] = f
         return f
 
     def evaluate(self, o, theta, pre=""):
@@ -1155,6 +1196,7 @@ def hist_run(H, leaves, ops, observe, seen, fails, tags):
 
     pool = hist_init(leaves)
     objs = [R.make_kernel(s) for s in leaves]
+    H.cur, H.last_which = 0, None  # every history starts on the first data set
 
     def report(t, opkind, i, attr, text):
         ent = pool[i]
@@ -1180,6 +1222,8 @@ def hist_run(H, leaves, ops, observe, seen, fails, tags):
         for i in idx:
             if not pool[i]["passed"]:
                 continue
+            if which:
+                H.last_which = which[-1]
             try:
                 diffs = hist_observe(H, objs[i], pool[i], which)
             except LibFailure as e:
@@ -1189,9 +1233,10 @@ def hist_run(H, leaves, ops, observe, seen, fails, tags):
                 ok = False
         return ok
 
-    X, y = H.X, H.y
+    skipped_bounds = 0
     for t, op in enumerate(ops):
         kd = op[0]
+        X, y = H.X, H.y  # the current data set
         try:
             if kd == "add":
                 with lib("k + k"):
@@ -1206,15 +1251,29 @@ def hist_run(H, leaves, ops, observe, seen, fails, tags):
                 with lib("pass_spatial_data"):
                     objs[op[1]].pass_spatial_data(X.copy())
             elif kd == "bounds":
-                with lib("estimate_hyperpar_bounds"):
-                    objs[op[1]].estimate_hyperpar_bounds(y.copy())
+                if hist_bounds_stale(pool, op[1]):
+                    skipped_bounds += 1
+                else:
+                    with lib("estimate_hyperpar_bounds"):
+                        objs[op[1]].estimate_hyperpar_bounds(y.copy())
+            elif kd == "data":
+                H.cur = op[1]
+                X, y = H.X, H.y
+                for o in (objs[::-1] if len(op) > 2 and op[2] else objs):
+                    with lib("pass_spatial_data(new data)"):
+                        o.pass_spatial_data(X.copy())
+                    H.nev += 1
             H.nev += 1
         except LibFailure as e:
-            report(t + 1, kd, op[1], f"raises:{e.exc_type}", f"{hist_text(op).replace('{new}', 'new')} raised {e}")
+            report(t + 1, DATA_KINDS[op[1]] if kd == "data" else kd, 0 if kd == "data" else op[1], f"raises:{e.exc_type}", f"{hist_text(op).replace('{new}', 'new')} raised {e}")
             return False
         hist_apply_sym(pool, op)
         if kd == "eval":
             ok = check(t + 1, kd, [op[1]], (t % 2,))
+        elif kd == "data":
+            # first with the hyper-parameter pattern of the most recent evaluation before the data changed, then with the other one
+            lw = H.last_which if H.last_which is not None else t % 2
+            ok = check(t + 1, DATA_KINDS[op[1]], range(len(pool)), (lw, 1 - lw))
         elif observe == "each":
             ok = check(t + 1, kd, range(len(pool)), (t % 2,))
         else:
@@ -1224,6 +1283,7 @@ def hist_run(H, leaves, ops, observe, seen, fails, tags):
     # ---- final audit: as they are (already done after the last operation when observe == "each"); after every object has
     # been given the data again; after bounds have been estimated for every object (layout and bounds only)
     T = len(ops)
+    X, y = H.X, H.y
     if observe != "each" and not check(T, "audit", range(len(pool)), (T % 2,)):
         return False
     try:
@@ -1236,6 +1296,10 @@ def hist_run(H, leaves, ops, observe, seen, fails, tags):
         return False
     if not check(T, "audit-pass", range(len(pool)), ((T + 1) % 2,)):
         return False
+    if any(e["b"] == "stale" for e in pool):
+        # bounds from earlier data are still stored on some object: estimating bounds for all is not defined by the property
+        tags.add("history:" + ">".join(op[0] + (str(op[1]) if op[0] == "data" else "") for op in ops) + f",observe={observe},bounds-from-earlier-data-kept")
+        return True
     try:
         for i, o in enumerate(objs):
             with lib("audit.estimate_hyperpar_bounds"):
@@ -1248,7 +1312,7 @@ def hist_run(H, leaves, ops, observe, seen, fails, tags):
         return False
     # what this history exercised: shape of the history (operation kinds), and whether an earlier composite was re-used
     reused = any(op[0] in ("add", "cp", "comp") and max(op[1], op[2]) >= len(leaves) for op in ops)
-    tags.add("history:" + ">".join(op[0] for op in ops) + (",reuses-composite" if reused else "") + f",observe={observe}")
+    tags.add("history:" + ">".join(op[0] + (str(op[1]) if op[0] == "data" else "") for op in ops) + (",reuses-composite" if reused else "") + f",observe={observe}")
     return True
 
 
@@ -1284,6 +1348,49 @@ def ev_history(case):
     }
 
 
+def redata_variants(ops, full):
+    """the history with the data changed in every position: [data k] inserted before operation p (p = len: at the end), then
+    [data 0] (back to the first data) before operation q >= p; k = 1 (same shape), 2 (other shape); the order in which the live
+    objects receive the data alternates with the position"""
+    L = len(ops)
+    out = []
+    for k in (1, 2):
+        for p in range(L + 1):
+            for q in range(p, L + 1):
+                if not full and q not in (p, L):
+                    continue
+                out.append(ops[:p] + [["data", k, (p + k) % 2]] + ops[p:q] + [["data", 0, (q + k + 1) % 2]] + ops[q:])
+    return out
+
+
+def ev_redata(case):
+    """every history that extends case['prefix'] up to case['depth'] operations, each with the data changed (same shape / other
+    shape) and changed back in every pair of positions; observed after every operation"""
+    leaves, depth = case["leaves"], case["depth"]
+    builders = case.get("builders", ["add", "cp"])
+    H = _Hist(case)
+    seen, fails, tags = {}, [], set()
+    count = 0
+    frontier = [[list(op) for op in case["prefix"]]]
+    while frontier:
+        nxt = []
+        for ops in frontier:
+            for v in redata_variants(ops, case.get("full", False)):
+                count += 1
+                hist_run(H, leaves, v, "each", seen, fails, tags)
+            if len(ops) < depth:
+                pool = hist_init(leaves)
+                for op in ops:
+                    hist_apply_sym(pool, op)
+                nxt += [ops + [op] for op in hist_next_ops(pool, builders, "each")]
+        frontier = nxt
+    for f in fails:
+        f["occurrences_in_case"] = seen[f["key"]]
+    tags.add(f"redata-leaves={'/'.join(leaves)},d={case['d']},n={case['n']}")
+    return {"fails": fails[:30], "n": H.nev, "tags": tags, "slack": H.slack,
+            "sample": {"leaves": leaves, "prefix": hist_describe(leaves, case["prefix"]), "histories": count, "expressions x data sets": len(H.fresh)}}
+
+
 def hist_prefixes(leaves, builders, observe, length):
     """all histories of exactly ``length`` operations (the blocks handed to the workers)"""
     out = []
@@ -1303,7 +1410,7 @@ def hist_prefixes(leaves, builders, observe, length):
 
 HIST_LEAVES = [["SE", "WN", "RQ"], ["RQ", "SE", "HN"], ["SE", "SE", "WN"], ["WN", "RQ", "SE"], ["RQ", "RQ", "SE"], ["SE", "HN", "SE"]]
 
-EVALUATORS = {"kernel": ev_kernel, "userbounds": ev_userbounds, "mean": ev_mean, "selftest": ev_selftest, "history": ev_history, "extreme": ev_extreme}
+EVALUATORS = {"kernel": ev_kernel, "userbounds": ev_userbounds, "mean": ev_mean, "selftest": ev_selftest, "history": ev_history, "redata": ev_redata, "extreme": ev_extreme}
 
 
 def run(ck):
@@ -1401,6 +1508,21 @@ def run(ck):
                 for e in pool[len(lv):]:
                     hspecs.setdefault(R.spec_name(e["spec"]) + repr(e["spec"]), e["spec"])
     ck.run_cases("history", hcases, chunk=1)
+    # ---- the same histories with the DATA changed (same shape / one more point) and changed back, in every pair of positions
+    if quick:
+        rplans = [(HIST_LEAVES[(seed + 2) % len(HIST_LEAVES)], ["add", "cp"], 2, False), (HIST_LEAVES[(seed + 5) % len(HIST_LEAVES)], ["add", "cp"], 2, False), (L2[seed % len(L2)], ["add", "cp"], 2, True)]
+    else:
+        rplans = [(lv, ["add", "cp", "comp"], 2, True) for lv in HIST_LEAVES] + [(lv, ["add", "cp"], 3, False) for lv in L2]
+    rcases = []
+    for i, (lv, builders, depth, full) in enumerate(rplans):
+        n, d = hnd[(seed + i) % len(hnd)]
+        base = {"leaves": lv, "builders": builders, "observe": "each", "n": n, "d": d, "design": "regular", "pattern": (seed + 2 * i + 1) % 9, "seed": seed, "full": full}
+        plen = 1 if depth == 2 else 2
+        for l in range(plen):
+            rcases += [dict(base, prefix=p, depth=l) for p in hist_prefixes(lv, builders, "each", l)]
+        rcases += [dict(base, prefix=p, depth=depth) for p in hist_prefixes(lv, builders, "each", plen)]
+    ck.run_cases("redata", rcases, chunk=1)
+    ck.extra["redata_plans"] = [{"leaves": lv, "constructors": b, "depth": dp, "all_position_pairs": f} for lv, b, dp, f in rplans]
     if hspecs:
         ck.run_cases("kernel", [{"spec": s, "n": 4, "d": 2, "design": "regular", "pattern": (q + seed) % 9, "seed": seed, "classes": False} for q, s in enumerate(hspecs.values())])
     ck.extra["history_plans"] = [{"leaves": lv, "constructors": b, "depth": dp, "observe": m} for lv, b, dp, _, m in plans]
@@ -1420,6 +1542,12 @@ def run(ck):
         "live object must have exactly (bit for bit) the n_params, labels, bounds, build_covariance, covariance_and_gradients and __call__ results "
         "of a freshly built object of its own expression (itself checked against the documented formula); hyper-parameters alternate between two "
         "patterns along the history. A history is counted by its sequence of operation kinds, whether it re-uses a composite, and the observation mode. "
+        "Data changes (evaluator redata, keys history/<family>/<attribute>/exposed-by:new-data-same-shape | new-data-other-shape | back-to-first-data): every history of <= 2 "
+        "operations (thorough: also <= 3 with two leaves, and CompositeCovariance) with 'every live object is given NEW data by pass_spatial_data' (different points of the same "
+        "shape, or one point more; objects served in order of creation or composites first) inserted before every operation p and at the end, and 'every live object is given the "
+        "FIRST data again' inserted at every later position q (quick, three leaves: q = p and q = end); later pass / bounds operations use the current data; after every operation "
+        "every object must equal, bit for bit, a freshly built object of its expression given the CURRENT data, evaluated first at the hyper-parameters of the most recent "
+        "evaluation before the data changed and then at the other pattern. "
         "Extreme regimes (keys extreme/..): {%d kernels: change-points with 2 and 3 kernels, nested, summed with noise, on axis 0/1, and SE, RQ, SE+RQ+WN} x "
         "{change-point width 1e-6, 1e-4, 1e-2, 1, 1e2 data ranges} x {location inside, at the lower / upper data edge, one range below / above the data} x "
         "{length-scale 1e-3, 1, 1e3 ranges} x {log-amplitudes from the pattern, all +10, all -10, alternating +-10} (thorough: the full product on two point sets; "
@@ -1444,5 +1572,9 @@ def run(ck):
               "(giving different data to two composites that share a leaf legitimately changes both); bounds of an object are compared only if "
               "estimate_hyperpar_bounds was called on it directly or on nothing that shares a leaf with it; histories are bounded by the stated depth "
               "and by n in {3,4}, d in {1,2}")
+    ck.assume("data changes: a data change hands the new data to EVERY live object (a composite sharing a leaf with an object that holds other data is in a state the property does "
+              "not define); bounds stored before a data change are kept by the library as if user-given (bounds are only estimated where none are set), so after a data change the "
+              "bounds of objects that had any are not compared, estimate_hyperpar_bounds is not called on composites sharing a leaf with such an object, and the final "
+              "'estimate bounds for all' audit is skipped; leaf kernels re-estimate from scratch and are compared")
     ck.extra["kernels"] = [R.spec_name(s) for s in KERNELS]
     ck.extra["nd"] = nd
